@@ -855,6 +855,150 @@ def conv_family(pad_i):
   return _prove(cases, t0)
 
 
+def ref_convT1d(x, k, b, stride, kdil, pad, tk):
+  """transposed convolution as a direct SCATTER sum.  x: (N, L, C); k: (K, C, F), or
+  (K, F, C) with transpose_kernel.  Every input position i and tap w contributes
+  x[i]*k[w] to output position i*stride + w'*kdil - off, w' = w (transpose_kernel:
+  the true transpose of Conv) or K-1-w (plain: the kernel is not flipped); `off`
+  follows from jax.lax.conv_transpose's documented SAME / VALID padding.  CIRCULAR
+  (plain kernel): SAME's alignment with positions wrapped modulo L*stride."""
+  N, Lx, C = x.shape
+  K = k.shape[0]
+  F = k.shape[1] if tk else k.shape[2]
+  keff = (K - 1) * kdil + 1
+  wrap = pad == 'CIRCULAR'
+  if pad in ('SAME', 'CIRCULAR'):
+    pad_len = keff + stride - 2
+    pa = keff - 1 if stride > keff - 1 else -(-pad_len // 2)
+    pb = pad_len - pa
+  elif pad == 'VALID':
+    pad_len = keff + stride - 2 + max(keff - stride, 0)
+    pa = keff - 1
+    pb = pad_len - pa
+  else:
+    pa, pb = pad
+  Lo = Lx * stride if wrap else (Lx - 1) * stride + 1 + pa + pb - keff + 1
+  acc = {}
+  for n in range(N):
+    for i in range(Lx):
+      for w in range(K):
+        wp = w if tk else K - 1 - w
+        o = i * stride + wp * kdil - (keff - 1 - pa)
+        if wrap:
+          o %= Lo
+        if not 0 <= o < Lo:
+          continue
+        for c in range(C):
+          for f in range(F):
+            kv = k.at((w, f, c)) if tk else k.at((w, c, f))
+            acc[(n, o, f)] = acc.get((n, o, f), S(0)) + x.at((n, i, c)) * kv
+  out = []
+  for n in range(N):
+    for o in range(Lo):
+      for f in range(F):
+        v = acc.get((n, o, f), S(0))
+        out.append(v + b.at((f,)) if b is not None else v)
+  return A(out, (N, Lo, F))
+
+
+CONVT_GRID = [(1, 1, 1), (2, 1, 1), (3, 1, 1), (4, 1, 1), (2, 2, 1), (3, 2, 1),
+              (4, 2, 1), (2, 3, 1), (3, 3, 1), (2, 1, 2), (3, 2, 2), (2, 4, 1)]
+
+
+def convT_family(which):
+  """which 0..2: SAME / VALID / explicit pairs against the scatter sum; 3: CIRCULAR
+  with the plain kernel == SAME alignment with periodic wrap-around, and shift
+  equivariance; 4: CIRCULAR with transpose_kernel is the transpose of
+  Conv(CIRCULAR) with the same kernel (as its source states)"""
+  t0 = time.time()
+  cases = []
+  with SymEnv():
+    if which < 4:
+      pad = ['SAME', 'VALID', (1, 2), 'CIRCULAR'][which]
+      for K, stride, kdil in CONVT_GRID:
+        for tk in ((False, True) if which < 3 else (False,)):
+          C, F, Lx = 2, 1, 3
+          x = A.sym('x', (1, Lx, C))
+          k = A.sym('k', (K, F, C) if tk else (K, C, F))
+          b = A.sym('b', (F,))
+          use_bias = K != 2
+          p = {'kernel': k}
+          if use_bias:
+            p['bias'] = b
+          kw = dict(strides=(stride,), kernel_dilation=(kdil,),
+                    padding=pad if isinstance(pad, str) else [pad],
+                    use_bias=use_bias, transpose_kernel=tk)
+          lay = nn.ConvTranspose(F, (K,), **kw)
+          got = lay.apply({'params': p}, x)
+          want = ref_convT1d(x, k, b if use_bias else None, stride, kdil, pad, tk)
+          label = 'ConvTranspose K=%d s=%d kd=%d tk=%s pad=%r' % (K, stride, kdil, tk,
+                                                                  pad)
+          cases.append((label, got, want))
+          nc = nnx.ConvTranspose(C, F, (K,), rngs=nnx.Rngs(0), **kw)
+          nc.kernel.value = R(k)
+          if use_bias:
+            nc.bias.value = R(b)
+          cases.append(('nnx.' + label, nc(R(x)), want))
+          if which == 3:
+            # periodic boundary conditions: rolling the input by one position rolls
+            # the output by `stride`
+            xr = A([x.at((0, (i - 1) % Lx, c)) for i in range(Lx) for c in range(C)],
+                   (1, Lx, C))
+            gr = A.of(lay.apply({'params': p}, xr))
+            g0 = A.of(got)
+            P = Lx * stride
+            cases.append(('shift equivariance ' + label, gr, A(
+                [g0.at((0, (o - stride) % P, f)) for o in range(P) for f in range(F)],
+                (1, P, F))))
+          if (K, stride, kdil) == (3, 2, 1):
+            # extra / missing batch dimensions, kernel mask
+            for shp in ((Lx, C), (1, 1, Lx, C)):
+              g2 = lay.apply({'params': p}, x.reshape(shp))
+              cases.append(('batch dims %d ' % (len(shp) - 2) + label, g2,
+                            want.reshape(shp[:-2] + want.shape[1:])))
+            msk = np.array([1.0, 0.0, 1.0]).reshape(3, 1, 1) * np.ones(k.shape)
+            lm = nn.ConvTranspose(F, (K,), mask=msk, **kw)
+            km = A([k.at(i) * float(msk[i]) for i in idxs(k.shape)], k.shape)
+            cases.append(('masked ' + label, lm.apply({'params': p}, x), ref_convT1d(
+                x, km, b if use_bias else None, stride, kdil, pad, tk)))
+    else:
+      for K, stride, kdil in CONVT_GRID:
+        for C, F in ((1, 1),) + (((2, 1),) if (K, stride) == (2, 1) else ()):
+          Ly = 3
+          Lin = Ly * stride
+          x = A.sym('x', (1, Lin, C))
+          y = A.sym('y', (1, Ly, F))
+          k = A.sym('k', (K, C, F))
+          kw = dict(strides=(stride,), kernel_dilation=(kdil,), padding='CIRCULAR',
+                    use_bias=False)
+          cx = A.of(nn.Conv(F, (K,), conv_general_dilated=be('conv_general_dilated'),
+                            **kw).apply({'params': {'kernel': k}}, x))
+          label = 'K=%d s=%d kd=%d C=%d' % (K, stride, kdil, C)
+          if cx.shape != y.shape:
+            return dict(status='sat', cex=dict(case='Conv CIRCULAR shape ' + label))
+          for mod, tag in ((nn.ConvTranspose(C, (K,), transpose_kernel=True, **kw),
+                            'linen'), (None, 'nnx')):
+            if mod is not None:
+              ct = mod.apply({'params': {'kernel': k}}, y)
+            else:
+              nc = nnx.ConvTranspose(F, C, (K,), transpose_kernel=True,
+                                     rngs=nnx.Rngs(0), **kw)
+              nc.kernel.value = R(k)
+              ct = nc(R(y))
+            ct = A.of(ct)
+            if ct.shape != x.shape:
+              return dict(status='sat', cex=dict(case='ConvT CIRCULAR shape ' + label))
+            lhs = S(0)
+            for i in idxs(y.shape):
+              lhs = lhs + cx.at(i) * y.at(i)
+            rhs = S(0)
+            for i in idxs(x.shape):
+              rhs = rhs + x.at(i) * ct.at(i)
+            cases.append(('%s <Conv x, y> == <x, ConvTranspose y> CIRCULAR %s' % (
+                tag, label), A([lhs], ()), A([rhs], ())))
+  return _prove(cases, t0)
+
+
 def conv2d_family(which):
   """2-D convolution (stride (1,2), SAME / VALID / CIRCULAR), Linen and NNX"""
   t0 = time.time()
@@ -1026,6 +1170,14 @@ def obligations(tier):
                   kind='smt', replay=replay_family, split=('pad_i',), timeout=900, funcs=F4,
                   bounds='1-D, length 5, 2 channels, kernel 1..3, stride 1..2, '
                          'kernel/input dilation 1..2, groups 1..2, bias on/off'))
+  for w, nm in enumerate(['SAME', 'VALID', 'explicit', 'CIRCULAR_plain_kernel',
+                           'CIRCULAR_is_transpose_of_Conv']):
+    obs.append(Ob('formula_conv_transpose_' + nm, _fam('convT_family'),
+                  dict(which=I(w, w)), kind='smt', replay=replay_family,
+                  split=('which',), timeout=900, funcs=F1,
+                  bounds='1-D, L=3, C<=2, F=1, (K, stride, kernel_dilation) in %r, '
+                         'plain and transposed kernel, bias, mask, 0..2 batch dims'
+                         % (CONVT_GRID,)))
   obs.append(Ob('control_wrong_formula_is_refuted', control_wrong_formula,
                 dict(which=I(0, 0)), kind='smt', split=('which',), timeout=300,
                 expect='refute', replay=replay_control))
